@@ -106,8 +106,11 @@ pub enum Node {
     N3,
     G1,
     G2,
+    /// IPv4 two-subnet configurations only: a neighbor on our FIRST subnet (172.20.0.0/20);
+    /// all other nodes live on 192.168.1.0/24
+    M1,
 }
-const NODES: [Node; 5] = [Node::N1, Node::N2, Node::N3, Node::G1, Node::G2];
+const NODES: [Node; 6] = [Node::N1, Node::N2, Node::N3, Node::G1, Node::G2, Node::M1];
 
 #[derive(Clone, Copy, Debug, PartialEq, Eq, PartialOrd, Ord, Hash)]
 pub enum Dst {
@@ -118,6 +121,14 @@ pub enum Dst {
     R1,
     /// off-link, covered by the default route and by the (expiring) specific route via G2
     R2,
+    /// the neighbor on the first subnet of the two-subnet configurations
+    M1,
+    /// off-link unicast whose host part under a /24 mask is all ones: 10.9.8.255
+    RB1,
+    /// off-link unicast whose host part under a /20 (and /24) mask is all ones: 10.9.15.255
+    RB2,
+    /// off-link unicast whose host part under a /24 mask is all zeros: 10.9.8.0
+    RZ,
 }
 
 #[derive(Clone, Copy, Debug, PartialEq, Eq, PartialOrd, Ord, Hash)]
@@ -151,6 +162,7 @@ fn node_code(n: Node) -> u8 {
         Node::N3 => 0x13,
         Node::G1 => 0xa1,
         Node::G2 => 0xa2,
+        Node::M1 => 0xb1,
     }
 }
 
@@ -185,6 +197,7 @@ fn node_ip(med: Med, n: Node) -> Ip {
             Node::N3 => v4(192, 168, 1, 13),
             Node::G1 => v4(192, 168, 1, 101),
             Node::G2 => v4(192, 168, 1, 102),
+            Node::M1 => v4(172, 20, 0, 11),
         },
         Med::EthV6 => match n {
             Node::N3 | Node::G1 => v6([0xfe80, 0, 0, 0, 0, 0, 0, c]),
@@ -203,6 +216,12 @@ fn dst_ip(med: Med, d: Dst) -> Ip {
         Dst::N1 => node_ip(med, Node::N1),
         Dst::N2 => node_ip(med, Node::N2),
         Dst::N3 => node_ip(med, Node::N3),
+        Dst::M1 => node_ip(med, Node::M1),
+        // the boundary destinations only mean something for IPv4 (IPv6 has no broadcast)
+        Dst::RB1 | Dst::RB2 | Dst::RZ if !med.is_v4() => v6([0x2001, 0xdb8, 1, 0, 0, 0, 0, 0xff]),
+        Dst::RB1 => v4(10, 9, 8, 255),
+        Dst::RB2 => v4(10, 9, 15, 255),
+        Dst::RZ => v4(10, 9, 8, 0),
         Dst::R1 => {
             if med.is_v4() {
                 v4(10, 0, 0, 7)
@@ -233,13 +252,27 @@ fn default_net(med: Med) -> (Ip, u8) {
         (v6([0; 8]), 0)
     }
 }
-fn our_addrs(med: Med, st: AddrState) -> Vec<(Ip, u8)> {
+/// the subnet a scripted neighbor lives on (it only answers ARP requests whose sender
+/// protocol address lies in it, like a real host — smoltcp's own process_arp included)
+fn node_subnet(med: Med, n: Node) -> Option<(Ip, u8)> {
+    if !med.is_v4() {
+        return None;
+    }
+    Some(if n == Node::M1 { (v4(172, 20, 0, 0), 20) } else { (v4(192, 168, 1, 0), 24) })
+}
+fn our_addrs(med: Med, st: AddrState, two_nets: bool) -> Vec<(Ip, u8)> {
     if med.is_v4() {
-        vec![match st {
+        let main = match st {
             AddrState::Base => (v4(192, 168, 1, 1), 24),
             AddrState::SameNet => (v4(192, 168, 1, 2), 24),
             AddrState::OtherNet => (v4(192, 168, 2, 1), 24),
-        }]
+        };
+        if two_nets {
+            // the FIRST address is on another subnet (a /20) than all neighbors but M1
+            vec![(v4(172, 20, 0, 1), 20), main]
+        } else {
+            vec![main]
+        }
     } else {
         vec![
             (v6([0xfe80, 0, 0, 0, 0, 0, 0, 1]), 64),
@@ -367,6 +400,9 @@ pub struct NeighCfg {
     pub n_socks: usize,
     /// one more socket, index `n_socks`: an ICMP socket sending echo requests
     pub icmp: bool,
+    /// IPv4 only: the interface has two addresses, the first one on 172.20.0.0/20, the second on
+    /// the subnet of the usual neighbors
+    pub two_nets: bool,
     /// socket 0 sends datagrams that need three or more link-layer fragments (Ethernet: the
     /// device MTU is lowered to 114 octets; 802.15.4: 6LoWPAN fragmentation)
     pub big: bool,
@@ -576,6 +612,8 @@ pub struct NeighH {
     frag_dst: Option<(u16, Ip)>,
     /// per socket: time of the last poll that left data queued in it (socket back-off)
     last_pending_poll: Vec<Option<i64>>,
+    /// source address of the latest discovery request per target (read by Drain in the same event)
+    last_req_sender: BTreeMap<Ip, Ip>,
 }
 
 impl Drop for NeighH {
@@ -699,7 +737,7 @@ impl NeighH {
     /// our address a peer with this address would talk to
     fn our_addr_for(&self, peer: &Ip) -> Ip {
         match peer {
-            Ip::V4(_) => self.m.addrs[0].0.clone(),
+            Ip::V4(_) => self.m.addrs.iter().find(|(a, p)| prefix_contains(a, *p, peer)).unwrap_or(&self.m.addrs[0]).0.clone(),
             Ip::V6(b) => {
                 if b[0] == 0xfe && b[1] == 0x80 {
                     self.m.addrs[0].0.clone()
@@ -735,7 +773,7 @@ impl NeighH {
             }
         };
         if med.is_v4() {
-            let mine = self.m.addrs[0].0.clone();
+            let mine = self.our_addr_for(&ip);
             let bc = vec![0xffu8; 6];
             let r = match kind {
                 DiscKind::Reply => (stim::eth(&me, &tru, 0x0806, &stim::arp(2, &tru, &ip, &me, &mine)), eligible(ip, tru, on_link)),
@@ -922,9 +960,30 @@ impl NeighH {
         reqs
     }
 
-    fn discovery(&mut self, target: Ip, t: i64, out: &mut Vec<Viol>, reqs: &mut Vec<Ip>) {
+    fn discovery(&mut self, target: Ip, sender: Ip, t: i64, out: &mut Vec<Viol>, reqs: &mut Vec<Ip>) {
         self.stats.inc("discovery_requests");
         self.emitted.push("discovery");
+        // Wire clause on the request itself: the neighbor can only answer (and learn us) if the
+        // request names one of OUR addresses it can reach: for ARP the sender protocol address
+        // must be an own address on the target's subnet whenever we have one (a host ignores ARP
+        // from senders outside its networks — process_arp does); otherwise, and for neighbor
+        // solicitations (lenient), any own unicast address.
+        self.last_req_sender.insert(target.clone(), sender.clone());
+        let own_on_subnet: Vec<Ip> = self.m.addrs.iter().filter(|(a, p)| prefix_contains(a, *p, &target)).map(|(a, _)| a.clone()).collect();
+        let own = self.m.addrs.iter().any(|(a, _)| *a == sender);
+        if !own {
+            let cause = if self.med.is_v4() { "arp-sender-address-not-own" } else { "ns-source-address-not-own" };
+            self.viol(out, "discovery", cause, format!("discovery request for {} carries source address {} which is not an address of the interface", target.show(), sender.show()));
+        } else if self.med.is_v4() && !own_on_subnet.is_empty() && !own_on_subnet.contains(&sender) {
+            self.viol(
+                out,
+                "discovery",
+                "arp-sender-address-not-on-target-subnet",
+                format!("ARP request for {} carries sender protocol address {} although the interface has {} on the target's subnet; the target will not answer a sender outside its network", target.show(), sender.show(), own_on_subnet[0].show()),
+            );
+        } else {
+            self.stats.inc("discovery_sender_address_checks_passed");
+        }
         if self.m.any_fresh(&target, t) {
             // the model still holds a fresh address: the code lost it (eviction / flush)
             self.stats.inc("rediscovery_while_model_fresh(eviction-or-flush)");
@@ -987,16 +1046,16 @@ impl NeighH {
                 }
                 other => self.machinery(out, "fragn-unknown-tag", format!("FRAGN tag {} but first fragment seen was {:?}", tag, other)),
             },
-            Body::Arp { op: 1, tpa, .. } => self.discovery(tpa, t, out, reqs),
+            Body::Arp { op: 1, tpa, spa, .. } => self.discovery(tpa, spa, t, out, reqs),
             Body::Arp { .. } => {
                 self.stats.inc("arp_replies_emitted");
                 self.emitted.push("arp-reply");
             }
-            Body::Ip { src: _, dst, l4, .. } => {
+            Body::Ip { src, dst, l4, .. } => {
                 let group = dst.is_multicast() || dst.is_limited_broadcast() || self.m.is_subnet_broadcast(&dst);
                 if group {
                     if let L4::Icmp { ty: 135, target: Some(target) } = l4 {
-                        self.discovery(target, t, out, reqs);
+                        self.discovery(target, src.clone(), t, out, reqs);
                     } else {
                         self.stats.inc("multicast_ip_frames_ignored");
                         self.emitted.push("mcast");
@@ -1018,7 +1077,7 @@ impl NeighH {
                     }
                     L4::Icmp { ty: 135, target: Some(target) } => {
                         // unicast solicitation (reachability probe) still counts for the rate limit
-                        self.discovery(target, t, out, reqs);
+                        self.discovery(target, src.clone(), t, out, reqs);
                     }
                     L4::Icmp { ty, .. } => {
                         self.emitted.push(if ty == 136 { "na" } else { "icmp" });
@@ -1175,6 +1234,13 @@ impl NeighH {
                     break;
                 }
                 let Some(&node) = NODES.iter().find(|&&n| node_ip(self.med, n) == t) else { continue };
+                // a real responder ignores ARP requests from senders outside its own subnet
+                if let (Some((net, plen)), Some(sender)) = (node_subnet(self.med, node), self.last_req_sender.get(&t)) {
+                    if !prefix_contains(&net, plen, sender) {
+                        self.stats.inc("drain_requests_unanswerable(sender outside responder's subnet)");
+                        continue;
+                    }
+                }
                 let before: Vec<usize> = self.m.queues.iter().map(|q| q.len()).collect();
                 let heads: Vec<Option<Vec<Ip>>> = self.m.queues.iter().map(|q| q.front().map(|d| self.m.next_hops(d, self.now))).collect();
                 let (r1, definite) = self.apply_disc(node, DiscKind::Reply, out);
@@ -1265,9 +1331,10 @@ impl Harness for NeighH {
             pending: vec![],
             frag_dst: None,
             last_pending_poll: vec![None; cfg.n_socks + cfg.icmp as usize],
+            last_req_sender: BTreeMap::new(),
         };
         h.m.queues = vec![VecDeque::new(); cfg.n_socks + cfg.icmp as usize];
-        h.m.addrs = our_addrs(med, AddrState::Base);
+        h.m.addrs = our_addrs(med, AddrState::Base, cfg.two_nets);
         h.set_real_addrs();
         let g1 = node_ip(med, Node::G1);
         match smol(&g1) {
@@ -1395,7 +1462,7 @@ impl Harness for NeighH {
                     (AddrState::Base, true) => AddrState::OtherNet,
                     _ => AddrState::Base,
                 };
-                self.m.addrs = our_addrs(med, self.addr_state);
+                self.m.addrs = our_addrs(med, self.addr_state, self.cfg.two_nets);
                 self.set_real_addrs();
                 self.stats.inc("address_changes");
             }
@@ -1524,7 +1591,31 @@ fn profiles(med: Med, slots: usize) -> Vec<(&'static str, usize, bool, Vec<Ev>, 
             Ev::Advance(61000),
             Ev::Poll,
         ];
+        let mut a = a;
+        if !v6 {
+            // off-link unicast that looks like a broadcast address under our /24 mask
+            a.push(send(1, D::RB1));
+        }
         out.push(("routing", 2, false, a, 6, 7));
+    }
+    // IPv4: two own subnets (first address on a /20 that only M1 shares), routed boundary
+    // destinations with all-ones / all-zeros host part under either mask
+    if !v6 {
+        let a = vec![
+            send(0, D::N1),
+            send(0, D::M1),
+            send(1, D::RB1),
+            send(1, D::RB2),
+            send(1, D::RZ),
+            disc(N1, Reply),
+            disc(M1, Reply),
+            disc(G1, Reply),
+            Ev::Addr { other_net: false },
+            Ev::Advance(1000),
+            Ev::Poll,
+            Ev::Drain,
+        ];
+        out.push(("twonet", 2, false, a, 6, 8));
     }
     // overlapping routes with different expiries (60 s and 120 s), same and different gateways
     {
@@ -1633,6 +1724,7 @@ fn all_cfgs(tier: Tier) -> Vec<(NeighCfg, usize)> {
                 n_socks,
                 icmp: name == "auto",
                 big: name.starts_with("frag"),
+                two_nets: name == "twonet",
                 autopoll,
                 alphabet: Arc::new(alphabet),
                 cache_slots: slots,
